@@ -48,7 +48,7 @@ func runMain(seed uint64, tier, out, replay, onlyHelper string) int {
 			per = 600
 		}
 		before := c.evals
-		runEcho(c, res, srv.URL, seed, n, per, "h", distinct)
+		runEcho(c, res, srv.URL, seed, n, per, "h", distinct, filepath.Join(out, "cases_solo_hand.txt"), soloMax(tier))
 		srv.Close()
 		res.Dist["echo_hand_requests"] = int(c.evals - before)
 	}
@@ -81,7 +81,7 @@ func echoMain(seed uint64, tier, addr, out string) int {
 	res := vh.NewResult()
 	c := &collector{}
 	distinct := vh.Distinct{}
-	runEcho(c, res, addr, seed+7, n, per, "g", distinct)
+	runEcho(c, res, addr, seed+7, n, per, "g", distinct, filepath.Join(out, "cases_solo_gen.txt"), soloMax(tier))
 	for _, f := range c.fails {
 		res.Fail(f.Sig, f.What, f.Input)
 	}
@@ -92,4 +92,12 @@ func echoMain(seed uint64, tier, addr, out string) int {
 		panic(err)
 	}
 	return 0
+}
+
+// soloMax: how many echo requests are replayed alone (correspondence of value_isolation)
+func soloMax(tier string) int {
+	if tier == "thorough" {
+		return 12000
+	}
+	return 1200
 }
